@@ -94,6 +94,7 @@ type Explorer struct {
 	prefixFresh bool // the last prefix step is an alternative nobody explored yet (work stealing)
 
 	FanoutCap int
+	noFork    bool // set during predicated execution: any need to fork aborts it
 	St        ExStats
 	inconc    []string
 }
@@ -291,6 +292,9 @@ func (ex *Explorer) recordSplit() {
 // choose picks one of the mutually exclusive, exhaustive alternatives.
 // emptyKind is the path end raised if none is feasible ("" = inconclusive).
 func (ex *Explorer) choose(kind string, alts []*Term, emptyKind string) int {
+	if ex.noFork {
+		panic(pathEnd{"nofork", ""})
+	}
 	k := ex.cursor
 	if k < len(ex.decisions) {
 		ex.cursor++
@@ -544,6 +548,9 @@ func (ex *Explorer) ReplayAssertFail(c *Term) bool {
 func (ex *Explorer) Concretize(t *Term) uint64 {
 	if t.IsConst() {
 		return t.C
+	}
+	if ex.noFork {
+		panic(pathEnd{"nofork", ""})
 	}
 	k := ex.cursor
 	if k < len(ex.decisions) {
